@@ -88,13 +88,57 @@ def one_statement_kernels(kind, mn, n, binding):
         call = f"{mn}.{n}({', '.join(a)})"
         body = f"    with {call}:\n        ...\n" if f.regions else f"    {call}\n"
         out.append((form, f"@{kind}\ndef main({', '.join(params)}):\n{body}"))
+    # operands annotated with the types the statement declares: all of them, and each one alone (mixed typed / untyped operands)
+    if params and not f.regions:
+        TYPE_NS.update({f"T_{mn}_{n}_{i}": af.type for i, af in enumerate(f.std_args.values())})
+        ann = lambda i: f"a{i}: T_{mn}_{n}_{i}"
+        base_call = f"    {mn}.{n}({', '.join(forms[0][1])})\n"
+        sigs = [("all operands annotated", [ann(i) for i in range(len(params))])]
+        if len(params) > 1:
+            sigs += [(f"only operand {i} annotated", [ann(j) if j == i else f"a{j}" for j in range(len(params))]) for i in range(len(params))]
+            sigs += [(f"all but operand {i} annotated", [ann(j) if j != i else f"a{j}" for j in range(len(params))]) for i in range(len(params))]
+        for form, sig in sigs:
+            out.append((form, f"@{kind}\ndef main({', '.join(sig)}):\n{base_call}"))
+    # operands that are constants known when the kernel is defined, and a result that is used
+    consts = []
+    for i, af in enumerate(f.std_args.values()):
+        t = repr(af.type)
+        v = next((val for pre, val in CONST_OPERANDS if t.startswith(pre)), None)
+        if v is None or af.group:
+            consts = None
+            break
+        consts.append(v)
+    if consts and not f.regions:
+        has_result = bool(getattr(f, "results", None))
+        call = f"{mn}.{n}({', '.join(consts + [f'{an}={lit}' for an, lit in req])})"
+        body = f"    r = {call}\n    return r\n" if has_result else f"    {call}\n"
+        out.append(("constant operands, result used", f"@{kind}\ndef main():\n{body}"))
     return out
+
+
+TYPE_NS = {}
+# operand type (by the prefix of its printed form) -> a valid constant of that type, as source text evaluated in the kernel's globals
+CONST_OPERANDS = [("FilledGrid[", "CONST_FILLED"), ("Grid[", "CONST_GRID"), ("IList[tuple[int, int]", "CONST_SITES"), ("IList[int", "CONST_INTS"),
+                  ("IList[float", "CONST_FLOATS"), ("tuple[int, int]", "(0, 1)"), ("int", "2"), ("float", "1.5")]
+
+
+def const_ns():
+    from bloqade.geometry.dialects.grid import Grid
+    from bloqade.shuttle.dialects.filled.types import FilledGrid
+    from kirin.dialects import ilist
+    g = Grid.from_positions([0.0, 1.0, 2.5], [0.0, 2.0])
+    from kirin import types
+    return {"CONST_GRID": g, "CONST_FILLED": FilledGrid.vacate(g, [(0, 0)]),
+            "CONST_SITES": ilist.IList([(0, 1), (2, 0)], elem=types.Tuple[types.Int, types.Int]),
+            "CONST_INTS": ilist.IList([0, 1], elem=types.Int), "CONST_FLOATS": ilist.IList([0.0, 1.5], elem=types.Float)}
 
 
 def try_define(src):
     from bloqade.geometry.dialects import grid as grid_mod
     from bloqade import shuttle
     ns = dict(kernel=shuttle.kernel, grid=grid_mod, atom=shuttle.atom)
+    ns.update(TYPE_NS)
+    ns.update(const_ns())
     try:
         kernels.define(src, **ns)
         return "accepted", ""
@@ -153,7 +197,9 @@ def run(ctx):
                 if (got == "accepted") != want:
                     # @move and @kernel verify operand types, so an untyped operand may be refused there for typing reasons;
                     # @tweezer does not verify types: a TypeCheckError from it is a refusal of the statement
-                    if got == "rejected" and want and in_group and why.startswith("TypeCheckError") and kind != "tweezer" and form == "required arguments only":
+                    if got == "rejected" and want and in_group and why.startswith("TypeCheckError") and kind != "tweezer" and (
+                            form == "required arguments only" or form.startswith("only operand") or form.startswith("all but operand")
+                            or form == "constant operands, result used"):
                         ctx.hist("outcome", "acceptance side not exercised (argument synthesis)")
                         ctx.extra.setdefault("acceptance_not_exercised", []).append(f"{kind}: {mn}.{n}: {why}")
                         continue
@@ -245,5 +291,7 @@ def replay(data):
     inp = data["input"]
     if "src" not in inp:
         return True, "re-run bin/check C17 (guard table)"
+    for mn, n, b, d in wrappers():          # fills the table of declared operand types the annotated forms refer to
+        one_statement_kernels("move", mn, n, b)
     got, why = try_define(inp["src"])
     return got != inp["expected"], f"{got} ({why}), documented: {inp['expected']}"
